@@ -221,3 +221,69 @@ Theorem having_reading c gv a k :
 Proof.
   intros H Hk. destruct (agg_ok_reading c gv a H) as [_ [Hkeys _]]. now apply Hkeys.
 Qed.
+
+(* ------------------------------------------------------------------ *)
+(* HAVING (agg op n): the checker [having_holds] evaluates the condition on the value the
+   model's accumulator computes.  That is no dependency on the model: the verdict is the
+   same for EVERY admissible value of COUNT / SUM / AVG (they differ at most in the lexical
+   form of a decimal). *)
+Lemma num_eqv_cmp p q n op : num_eqv p q = true -> cmp_num op p (n, 0%N) = cmp_num op q (n, 0%N).
+Proof.
+  destruct p as [a k], q as [b k']. unfold cmp_num, num_eqv, num_lt. simpl.
+  assert (P : forall k, (0 < pow10 k)%Z) by (intros k0; unfold pow10; apply Z.pow_pos_nonneg; lia).
+  pose proof (P k) as Pk. pose proof (P k') as Pk'. change (pow10 0) with 1%Z.
+  set (x := pow10 k) in *. set (y := pow10 k') in *. rewrite Z.eqb_eq. intros E.
+  assert (L1 : (a * 1 <? n * x)%Z = (b * 1 <? n * y)%Z).
+  { apply eq_true_iff_eq. rewrite !Z.ltb_lt. split; intros H; nia. }
+  assert (L2 : (n * x <? a * 1)%Z = (n * y <? b * 1)%Z).
+  { apply eq_true_iff_eq. rewrite !Z.ltb_lt. split; intros H; nia. }
+  assert (L3 : (a * 1 =? n * x)%Z = (b * 1 =? n * y)%Z).
+  { apply eq_true_iff_eq. rewrite !Z.eqb_eq. split; intros H; nia. }
+  destruct op; rewrite ?L1, ?L2, ?L3; reflexivity.
+Qed.
+
+Lemma num_same_cond t t' op n : num_same t t' = true -> cond_holds op n (Some t) = cond_holds op n (Some t').
+Proof.
+  unfold num_same, cond_holds. intros H. apply andb_true_iff in H. destruct H as [_ H].
+  destruct (num_of t) as [p|], (num_of t') as [q|]; try discriminate. now apply num_eqv_cmp.
+Qed.
+
+Definition having_kind (a : aggspec) : bool :=
+  match a_arg a, a_kind a with
+  | None, _ | _, ACount | _, ASum | _, AAvg => true
+  | _, _ => false
+  end.
+
+Theorem having_verdict_unique a rows o o' op n :
+  having_kind a = true -> agg_adm a rows o = true -> agg_adm a rows o' = true ->
+  cond_holds op n o = cond_holds op n o'.
+Proof.
+  unfold having_kind, agg_adm. destruct (a_arg a) as [v|].
+  2:{ intros _ H1 H2. apply oterm_eqb_eq in H1. apply oterm_eqb_eq in H2. congruence. }
+  destruct (a_kind a); try discriminate; intros _.
+  - intros H1 H2. apply oterm_eqb_eq in H1. apply oterm_eqb_eq in H2. congruence.
+  - destruct (negb (is_var v) && has_unbound (ovals v rows)).
+    { destruct o, o'; try discriminate; reflexivity. }
+    destruct (forallb is_numeric _).
+    + destruct o as [t|], o' as [t'|]; try discriminate. intros H1 H2.
+      rewrite (num_same_cond _ _ op n H1). symmetry. now apply num_same_cond.
+    + destruct o, o'; try discriminate; reflexivity.
+  - destruct (negb (is_var v) && has_unbound (ovals v rows)).
+    { destruct o, o'; try discriminate; reflexivity. }
+    destruct (forallb is_numeric _).
+    + destruct (if a_distinct a then _ else _) as [|x l].
+      * destruct o as [t|], o' as [t'|]; try discriminate. intros H1 H2.
+        destruct (term_eqb_spec t (TInt 0)), (term_eqb_spec t' (TInt 0)); congruence.
+      * destruct o as [t|], o' as [t'|]; try discriminate. intros H1 H2.
+        rewrite (num_same_cond _ _ op n H1). symmetry. now apply num_same_cond.
+    + destruct o, o'; try discriminate; reflexivity.
+Qed.
+
+(* so the checker's HAVING verdict is the verdict on any admissible value *)
+Theorem having_holds_admissible a op n rows o :
+  having_kind a = true -> agg_adm a rows o = true ->
+  having_holds (Some (HAgg a op n)) rows = cond_holds op n o.
+Proof.
+  intros Hk Ho. unfold having_holds. apply having_verdict_unique with (a := a) (rows := rows); auto.
+  apply agg_run_adm.
+Qed.
